@@ -221,7 +221,7 @@ def build(case, rec, twin=None):
     """case["ctor"] selects rarely used constructor forms: VaryList / TargetList wrappers, scale= instead of
     weight=, weight=None, a single Vary instead of a list, solver=, solver_options=, name=, show_call_counter="""
     n = len(case["x0"])
-    names = [f"k{i}" for i in range(n)]
+    names = list(case.get("names") or [f"k{i}" for i in range(n)])
     cont = {nm: float(v) for nm, v in zip(names, case["x0"])}
     g = make_function(case["fun"], rec, twin)
     cx = case.get("ctor", {})
@@ -461,6 +461,52 @@ def public_api():
     return sorted(n for n in dir(xo.Optimize) if not n.startswith("_") and callable(getattr(xo.Optimize, n)))
 
 
+def sim_set_state(flags, attrs, state, entries):
+    """what enable/disable must do, from the documented semantics: None = nothing, True = all,
+    False = all with the opposite state, an int = that index, a string = a regular expression
+    that must match the WHOLE tag / name (re.fullmatch)"""
+    import re
+    if entries is None:
+        return
+    if entries is True or entries is False:
+        for i in range(len(flags)):
+            flags[i] = state if entries else (not state)
+        return
+    for en in ([entries] if isinstance(entries, (int, str)) else entries):
+        if isinstance(en, int):
+            flags[en] = state
+        else:
+            for i, a in enumerate(attrs):
+                if re.fullmatch(en, a) is not None:
+                    flags[i] = state
+
+
+def expected_flags(case, names, op, status, va, ta):
+    """active flags after enable / disable / step, computed from the flags before"""
+    va, ta = list(va), list(ta)
+    vt = [v["tag"] for v in case["vary"]]
+    tt = [t["tag"] for t in case["targets"]]
+    def able(state, target=None, vary=None, vary_name=None):
+        sim_set_state(ta, tt, state, target)
+        sim_set_state(va, vt, state, vary)
+        sim_set_state(va, names, state, vary_name)
+    k = op[0]
+    if k in ("enable", "disable"):
+        able(k == "enable", op[1], op[2], op[3])
+    elif k == "step":
+        a = op[3]
+        able(True, target=a.get("enable_target")); able(True, vary=a.get("enable_vary"))
+        able(False, target=a.get("disable_target")); able(False, vary=a.get("disable_vary"))
+        able(False, vary_name=a.get("disable_vary_name")); able(True, vary_name=a.get("enable_vary_name"))
+        if status == "ok":
+            able(False, target=a.get("enable_target")); able(False, vary=a.get("enable_vary"))
+            able(True, target=a.get("disable_target")); able(True, vary=a.get("disable_vary"))
+            able(True, vary_name=a.get("disable_vary_name")); able(False, vary_name=a.get("enable_vary_name"))
+    else:
+        return None
+    return va, ta
+
+
 def temp_disabled(opt, a):
     """indices of knobs / targets named by the disable_* arguments of step()"""
     e = opt._err
@@ -568,6 +614,14 @@ def run_sequence(case, rec, twin=None, with_oracles=True):
                 out["status"] = "ragged"
                 break
             continue
+        if with_oracles and not status.startswith("other:"):
+            # ---- C10: the active set is the one the full-match selector semantics defines ----
+            exp = expected_flags(case, names, op, status, va_before, ta_before)
+            if exp is not None and (exp[0] != va_after or exp[1] != ta_after):
+                out["C10"].append({"what": "active flags after " + kind + "() differ from the selection by full match of tags / names",
+                                   "op": iop, "expected": [exp[0], exp[1]], "got": [va_after, ta_after],
+                                   "names": names, "vary_tags": [v["tag"] for v in case["vary"]],
+                                   "target_tags": [t["tag"] for t in case["targets"]]})
         if with_oracles and not ob["ragged"]:
             # ---- C10: rows and containers inside the closed limits ----------------
             for i in range(len_before if kind != "clear" else 0, nrows):
